@@ -47,6 +47,8 @@ type DiceSpec struct {
 	// wod / dc, VM only: the pool is written as a nested pool term '(<Pool>a0m<NestM>k1)', whose value is
 	// Pool by construction (every die of it succeeds, none is added): a term inside a term
 	NestM int64 `json:",omitempty"`
+	// NestOp: which operand is the nested term: "" = the pool, "thr" = the k/q threshold (wod)
+	NestOp string `json:",omitempty"`
 }
 
 type C04Scenario struct {
@@ -135,6 +137,9 @@ func genDiceSpec(r *Rng) DiceSpec {
 	}
 	if (d.Fam == "wod" || d.Fam == "dc") && d.Via == "vm" && r.Chance(1, 4) {
 		d.NestM = bnd(100, 6, 20, 3, 1000)
+		if d.Fam == "wod" && d.HasThreshold && r.Bool() {
+			d.NestOp = "thr"
+		}
 	}
 	// exploding pools with a low add line grow geometrically under a real stream too: keep them small
 	if (d.Fam == "wod" || d.Fam == "dc") && d.AddLine >= 2 && d.Points > 0 && d.AddLine*2 <= d.Points+1 && d.Source != "explode" && d.Source != "low" && d.Source != "min" {
@@ -201,9 +206,9 @@ func (d *DiceSpec) term() string {
 				s += d.PreKind + p(d.PreVal)
 			}
 			if d.LE {
-				s += "q" + p(d.Threshold)
+				s += "q" + d.thrText(p)
 			} else {
-				s += "k" + p(d.Threshold)
+				s += "k" + d.thrText(p)
 			}
 		}
 		return s
@@ -217,13 +222,38 @@ func (d *DiceSpec) term() string {
 }
 
 func (d *DiceSpec) poolText(p func(int64) string) string {
-	if d.NestM > 0 && d.Via == "vm" && d.Pool >= 1 && d.Pool <= 12 {
+	if d.NestOp == "" && d.nestN() > 0 {
 		return "(" + p(d.Pool) + "a0m" + p(d.NestM) + "k1)"
 	}
 	return p(d.Pool)
 }
 
-func (d *DiceSpec) nested() bool { return d.NestM > 0 && d.Via == "vm" && d.Pool >= 1 && d.Pool <= 12 }
+func (d *DiceSpec) thrText(p func(int64) string) string {
+	if d.NestOp == "thr" && d.nestN() > 0 {
+		return "(" + p(d.Threshold) + "a0m" + p(d.NestM) + "k1)"
+	}
+	return p(d.Threshold)
+}
+
+// nestN: the number of dice the nested operand rolls (= its value), 0 if no operand is nested.
+func (d *DiceSpec) nestN() int64 {
+	if d.NestM <= 0 || d.Via != "vm" {
+		return 0
+	}
+	switch d.NestOp {
+	case "":
+		if d.Pool >= 1 && d.Pool <= 12 {
+			return d.Pool
+		}
+	case "thr":
+		if d.Fam == "wod" && d.HasThreshold && d.Threshold >= 1 && d.Threshold <= 12 {
+			return d.Threshold
+		}
+	}
+	return 0
+}
+
+func (d *DiceSpec) nested() bool { return d.nestN() > 0 }
 
 // legal says whether the parameters are legal (VM-level rules).
 func (d *DiceSpec) legal() bool {
@@ -645,7 +675,7 @@ func c04Exec(raw json.RawMessage, res *RunResult) {
 			res.Probe("illegal_parameters")
 			if err == nil {
 				res.Violate("illegal-accepted@"+d.Fam, "%s: illegal parameters produced the number %d instead of an error", what, total)
-			} else if len(ledger) > 0 && !(d.nested() && len(ledger) <= int(d.Pool)) {
+			} else if len(ledger) > 0 && !(d.nested() && len(ledger) <= int(d.nestN())) {
 				// (a nested pool operand is a term of its own and rolls before the outer parameters are looked at)
 				res.Violate("illegal-rolled@"+d.Fam, "%s: rejected (%v) but %d dice were drawn first", what, err, len(ledger))
 			}
@@ -662,15 +692,16 @@ func c04Exec(raw json.RawMessage, res *RunResult) {
 		}
 		if d.nested() {
 			// the nested operand's dice come first: Pool dice of NestM sides
-			bad := len(ledger) < int(d.Pool)
-			for i := 0; !bad && i < int(d.Pool); i++ {
+			nn := int(d.nestN())
+			bad := len(ledger) < nn
+			for i := 0; !bad && i < nn; i++ {
 				bad = ledger[i].Sides != d.NestM
 			}
 			if bad {
-				res.Violate("nested-pool-dice@"+d.Fam, "%s: the nested pool operand must roll %d dice of %d sides first; drawn: %s", what, d.Pool, d.NestM, trunc(fmt.Sprint(ledger), 200))
+				res.Violate("nested-pool-dice@"+d.Fam, "%s: the nested operand must roll %d dice of %d sides first; drawn: %s", what, nn, d.NestM, trunc(fmt.Sprint(ledger), 200))
 				continue
 			}
-			ledger = ledger[d.Pool:]
+			ledger = ledger[nn:]
 			res.Probe("nested_pool_term")
 		}
 		var faces []int64
